@@ -542,7 +542,7 @@ def c08_compare(rq, impl, model):
     # direct all-or-nothing predicate on the implementation
     f = rq.split(" ")
     dest = f[3] if len(f) > 3 else ""
-    for pre in ("nu8:", "long:", "lnkrel:", "lnkabs:"):
+    for pre in ("nu8:", "long:", "lnkrel:", "lnkabs:", "hard:"):
         if dest.startswith(pre):
             dest = dest[len(pre):]
     st = impl.split(" ")[0]
